@@ -968,7 +968,7 @@ func TestVerifC56(t *testing.T) {
 	clients := []c56Addr{c56v4b4("172.16.5.6"), c56v4b16("172.16.5.6"), c56v6("2001:db8:1::2")}
 	if th {
 		remotes = append(remotes, c56v4b4("192.0.2.255"), c56v4b16("0.0.0.0"), c56v4b4("255.255.255.255"), c56v6("fe80::1"), c56v6("::"), c56v6("64:ff9b::a01:203"), c56v6("ffff:ffff:ffff:ffff:ffff:ffff:ffff:ffff"))
-		clients = append(clients, c56v4b16("10.1.2.3"), c56v4b4("127.0.0.1"), c56v6("2001:db8::1"), c56v6("::ffff:0:1"), c56v6("fe80::ffff:a01:203"))
+		clients = append(clients, c56v4b16("10.1.2.3"), c56v4b4("127.0.0.1"), c56v6("2001:db8::1"), c56v6("::fffe:a01:203"), c56v6("::1:ffff:0:1"), c56v6("fe80::ffff:a01:203"))
 	}
 	combos := c56combos(remotes, clients)
 	// a small representative subset for the families where the address is irrelevant
